@@ -19,7 +19,8 @@ RULE = ("random operation histories (memoize with/without key override, get, rea
         "was served a value and at least one forget removed a live entry; distinct = distinct op lists"
         '; also: recorded failures and partitions with equal values as values, reads through the memento of an earlier write, one metadata key written both ways'
         '; rounds 7-9: look-ups of several calls given as a generator, listings with limit 0..3, metadata stored with the data across re-memoization, partitions with entries inherited from a merge parent'
-        '; round 12: every memoization hands over a memento of its own (look-ups must return the last one), the same result memoized twice')
+        '; round 12: every memoization hands over a memento of its own (look-ups must return the last one), the same result memoized twice'
+        '; round 15: a call with with-data metadata forgotten and made again with the same result')
 ASSUMPTIONS = [
     "answers are compared up to representation: truthiness of is_memoized, sets of qualified names / "
     "arg hashes for listings, type-aware value equality for results",
